@@ -364,6 +364,53 @@ def build(run):
         for multi in (False, True):
             via_cfd(cname, multi)
 
+    # ---- entry point: apply_restrictions given an Integral / a Form (as compute_form_data calls it) of ANY interior-facet integral type
+    # (dS, and dS_h / dS_v on extruded cells) does to the integrand exactly what it does to the bare integrand expression; the rejections coincide
+    ext = ufl.Mesh(E.LagrangeElement(ufl.TensorProductCell(ufl.interval, ufl.interval), 1, (2,)))
+    ENTRY = {"dS": (tri, "dS"), "dS_h (extruded cell)": (ext, "dS_h"), "dS_v (extruded cell)": (ext, "dS_v"), "dS (extruded cell)": (ext, "dS")}
+
+    def entry(mkey, cname, dflt):
+        tag = f"entry-point/{cname}/{mkey}/default={dflt}"
+
+        def thunk():
+            from ufl.algorithms.apply_algebra_lowering import apply_algebra_lowering
+            from ufl.algorithms.apply_derivatives import apply_derivatives
+            msh, mname = ENTRY[mkey]
+            e = apply_derivatives(apply_algebra_lowering(dict(corpus(msh))[cname]))
+            dr = None if dflt is None else {msh: dflt}
+
+            def run_on(x):
+                try:
+                    return ("ok", apply_restrictions(x, default_restrictions=dr))
+                except (ValueError, RuntimeError) as ex:
+                    if not deliberate(ex):
+                        raise
+                    return ("rejected", str(ex))
+            try:
+                ref = run_on(e)
+                form = e * ufl.Measure(mname, msh)
+                got_i = run_on(form.integrals()[0])
+                got_f = run_on(form)
+            except Exception as ex:  # noqa: BLE001
+                return violated(f"crash instead of a result or a refusal: {crash_text(ex)}", reproduced=True, backend="exec")
+            for what, got in (("Integral", got_i), ("Form", got_f)):
+                if got[0] != ref[0]:
+                    return violated(f"{tag}: apply_restrictions on the bare integrand is {ref[0]} but on the {what} it is {got[0]} ({str(got[1])[:200]})",
+                                    replay={"integrand": str(e)[:600], "measure": mname, "on": what}, reproduced=True, backend="exec")
+                if got[0] == "ok":
+                    r = got[1].integrand() if what == "Integral" else got[1].integrals()[0].integrand()
+                    from ufl.algorithms.renumbering import renumber_indices
+                    if not (renumber_indices(r) == renumber_indices(ref[1])):       # equal up to the names of bound indices
+                        return violated(f"{tag}: the integrand of the {what} after apply_restrictions is {str(r)[:200]}, the propagated bare integrand is {str(ref[1])[:200]}",
+                                        replay={"integrand": str(e)[:600], "measure": mname, "on": what, "got": str(r)[:600], "expected": str(ref[1])[:600]},
+                                        reproduced=True, backend="structural")
+            return proved("exec+structural", vcs=2, sample=f"{tag}: Integral and Form entry points agree with the expression entry point ({ref[0]})")
+        run.add(tag, thunk, kind="values")
+    for mkey in ENTRY:
+        for cname, _e in corpus(tri):
+            for dflt in ("+", None):
+                entry(mkey, cname, dflt)
+
     def canary():
         msh = tri
         sp = spaces(msh)
